@@ -557,6 +557,7 @@ def tag_norm(ln, a):
 
 def check(run):
     run.prove(MODULE, THEOREMS)
+    run.source_tie(['SrcCoord'], 'GeoVerif.Props.C08Src', ['GV.C08Src.' + t for t in ('loop2_eq', 'loop1_eq', 'init_eq', 'src_norm_range', 'src_norm_idem')])
     rng = run.rng
 
     # ---- normalisation: exhaustive special values ---------------------------------------------------
